@@ -65,7 +65,7 @@ F_NAME = "P10-yaml-load-drops-tensor-name"
 F_TUPLE = "P10-yaml-tuple-coords-not-loadable"
 
 RANK_POOLS = [["M", "K", "N", "P"], ["A", "B", "C", "D"], ["X1", "Y0", "Z", "W2"]]
-NAMES = ["", "", "A", "T1", "my tensor", "x+y", "123", "true", "a: b"]
+NAMES = ["", "", "A", "T1", "my tensor", "x+y", "123", "true", "a: b", " lead", "trail ", " both  ", "\ttab"]
 # (nothing is computed with these values, so exact == holds for every int and float: many-digit, non-dyadic and
 # extreme values are as legitimate as small ones)
 INT_POOL = [1, 2, 3, 5, 7, -1, -4, 10, 0, 2 ** 40, -(2 ** 70)]
@@ -551,7 +551,7 @@ def check_yaml(case, rec):
 # part: rank-0 tensors (enumerated)
 
 R0_VALUES = [0, 1, 2, -3, 10, 0.5, -2.5, 1.5, 0.1, 1 / 3, 1e+22, 2 ** 70]
-R0_NAMES = ["", "A", "my tensor", "123", "true"]
+R0_NAMES = ["", "A", "my tensor", "123", "true", " lead", "trail "]
 R0_ROUTES = ["ctor", "fromUncompressed", "fromUncompressed-kw"]
 
 
